@@ -1,4 +1,5 @@
 import BigtoolsModel.Validate
+import BigtoolsModel.ValidateGen
 import BigtoolsModel.Tiler2
 import BigtoolsModel.RTBuild
 import BigtoolsModel.BuildEmpty
@@ -75,3 +76,17 @@ theorem C13_autosql_parser_terminates (cc : CC) (s : List Nat) : parseAutosql cc
   parse_total cc s
 
 end ASN
+
+namespace VL
+
+/-- **The code's own preconditions.** Every `if <cond> { return Err(` of `process_val` in bigwigwrite.rs and bigbedwrite.rs is
+    regenerated from the source on every run; split into the conditions on the value alone and those involving the look-ahead
+    value, they are exactly the `check` with which refusal and acceptance above are stated. -/
+theorem C13_source_preconditions_are_the_models_check (len : Nat) (cur n : Item) :
+    check false len cur none = (!Gen.wig_refuse_alone cur.s cur.e len) ∧
+    check false len cur (some n) = (!(Gen.wig_refuse_alone cur.s cur.e len || Gen.wig_refuse_next cur.s cur.e len n.s n.e)) ∧
+    check true len cur none = (!Gen.bed_refuse_alone cur.s cur.e len) ∧
+    check true len cur (some n) = (!(Gen.bed_refuse_alone cur.s cur.e len || Gen.bed_refuse_next cur.s cur.e len n.s n.e)) :=
+  ⟨gen_wig_check_alone len cur, gen_wig_check_next len cur n, gen_bed_check_alone len cur, gen_bed_check_next len cur n⟩
+
+end VL
